@@ -74,4 +74,16 @@ CLAIMED = {
             "One-sided like the property (rejections of valid rows are counted). Decision table: no trace direction. prefix_hex "
             "trusted.",
             "DESIGN.md §3 C17"),
+    "C06": ("TLA+ spec RevocationBitmap (set of index classes in a document service; revoke/unrevoke batches, endpoint and legacy "
+            "round trips, validator status table) model-checked by TLC; every transition replayed on RevocationBitmap, "
+            "CoreDocument and IotaDocument; random batch histories trace-validated",
+            "model_checking",
+            "TLC explores all 16 member sets x every operation and checks 'exactly the requested indices change' and 'revoked iff "
+            "member' as action properties; every transition is replayed on three real carriers with classes realised as 1 / "
+            "100 000 dense / 3 000 sparse / 8 extreme u32 indices, comparing after each step the membership of every concrete "
+            "index and of neighbour indices as read back from the published service endpoint (current and legacy "
+            "double-encoded form), and JwtCredentialValidatorUtils::check_status over 3 modes x 7 status shapes; recorded random "
+            "batch histories on live documents are validated by TLC against the set model (cardinality + every answer).",
+            "roaring/flate2 trusted as codecs; indices >= 2^31 only in the replay direction.",
+            "DESIGN.md §3 C06"),
 }
